@@ -345,3 +345,15 @@ def all_guards(node, fn):
         else:
             res.append((t, pol))
     return res
+
+
+def canon(text: str) -> str:
+    """canonical spelling of an expression / statement pattern: parsed, comparisons oriented like model._normalise_comparisons does
+    for the analysed source, unparsed.  Rules write their patterns in natural orientation and compare canon(pattern) with the source."""
+    from .model import _normalise_comparisons
+    try:
+        tree = ast.parse(text, mode="eval")
+    except SyntaxError:
+        tree = ast.parse(text)
+    _normalise_comparisons(tree)
+    return ast.unparse(tree)
